@@ -66,7 +66,7 @@ func genC02(t *rapid.T) C02Case {
 		Failing: rapid.Bool().Draw(t, "failing"),
 		Custom:  true, Consts: true, Aliases: true, BoolW: 6,
 	}}
-	tree := wrapRoot(g.Expr(rootTy(t), g.Depth))
+	tree := wrapRoot(g.Program(rootTy(t)))
 	fixEmptyLists(tree)
 	u := UniverseFor(t, tree, rapid.IntRange(0, 4).Draw(t, "collide") == 0)
 	u.Stateless = drawStateless(t)
